@@ -9,6 +9,7 @@ import (
 	"net/http/httptest"
 	"net/url"
 	"os"
+	"sort"
 	"strings"
 	"sync"
 	"time"
@@ -521,6 +522,34 @@ func modelOnly(max int, hist []wop) (struct{}, wmodel) {
 
 type recvd struct {
 	Method, Path, Auth, Custom, CT, Body string
+	Other                                []string // header names outside the transport's standard set
+}
+
+// stdHeaders are what Go's HTTP transport and the JSON client add on their own.
+var stdHeaders = map[string]bool{"Authorization": true, customHeader: true, "Content-Type": true, "Content-Length": true, "User-Agent": true, "Accept-Encoding": true, "Accept": true}
+
+func otherHeaders(h http.Header) []string {
+	var out []string
+	for k := range h {
+		if !stdHeaders[k] {
+			out = append(out, k)
+		}
+	}
+	sort.Strings(out)
+	return out
+}
+
+func authOK(auth string, c recvd) bool {
+	if len(c.Other) > 0 {
+		return false
+	}
+	switch auth {
+	case "bearer":
+		return c.Auth == "Bearer "+hookToken && c.Custom == ""
+	case "custom":
+		return c.Custom == hookToken && c.Auth == ""
+	}
+	return c.Auth == "" && c.Custom == ""
 }
 
 func prodClientRuns(env core.Env, rep *core.Report, job *int) {
@@ -530,7 +559,7 @@ func prodClientRuns(env core.Env, rep *core.Report, job *int) {
 	srv := httptest.NewServer(http.HandlerFunc(func(w http.ResponseWriter, r *http.Request) {
 		b, _ := io.ReadAll(r.Body)
 		mu.Lock()
-		got = append(got, recvd{r.Method, r.URL.Path, r.Header.Get("Authorization"), r.Header.Get(customHeader), r.Header.Get("Content-Type"), string(b)})
+		got = append(got, recvd{r.Method, r.URL.Path, r.Header.Get("Authorization"), r.Header.Get(customHeader), r.Header.Get("Content-Type"), string(b), otherHeaders(r.Header)})
 		oc := outcome
 		mu.Unlock()
 		switch oc {
@@ -610,21 +639,101 @@ func prodClientRuns(env core.Env, rep *core.Report, job *int) {
 					kind = "prodclient.delivery_count/" + auth
 				}
 				for _, c := range rc {
-					okAuth := true
-					switch auth {
-					case "bearer":
-						okAuth = c.Auth == "Bearer "+hookToken && c.Custom == ""
-					case "custom":
-						okAuth = c.Custom == hookToken && c.Auth == ""
-					default:
-						okAuth = c.Auth == "" && c.Custom == ""
-					}
+					okAuth := authOK(auth, c)
 					if c.Method != "POST" || c.Path != "/hook" || !okAuth || !strings.Contains(c.Body, `"operation":"ADD"`) {
 						kind = "prodclient.request/" + auth
 					}
 				}
 				if kind != "" {
 					st.viol(kind, fmt.Sprintf("production client, auth=%s, outcomes %v, max_tries %d: the target must receive one POST per event while the webhook is active, carrying exactly the configured authorisation header", auth, sq, max), fmt.Sprintf("%d POSTs", expectCalls), rc)
+				}
+				w.rig.Close()
+				_ = os.Remove(path)
+			}
+		}
+	}
+	// ---- two webhooks with every ordered pair of authorisation kinds, served by one client in
+	// one process: both registered; or the first one deleted / deactivated before the second is
+	// called. Each target must see exactly its own authorisation header, whatever was sent before.
+	*job++
+	if !env.Mine(*job) {
+		return
+	}
+	kinds := []string{"bearer", "custom", "none"}
+	for _, a0 := range kinds {
+		for _, a1 := range kinds {
+			for _, shape := range []string{"both", "first-deleted", "first-deactivated"} {
+				if rep.Expired() {
+					return
+				}
+				urls := [2]string{srv.URL + "/hook", srv.URL + "/hook2"}
+				path := core.NewStoreFile()
+				w := openWorld(path, 1, client.NewWebhookTargetClient())
+				m := wmodel{Max: 1}
+				var hist []wop
+				st := &stepper{rep: rep, max: 1, check: true, urls: urls, prodOf: client.NewWebhookTargetClient}
+				do := func(o wop) {
+					if o.Kind == "notify" {
+						mu.Lock()
+						outcome = o.Out[0]
+						mu.Unlock()
+					}
+					hist = append(hist, o)
+					st.hist = hist
+					w = st.apply(w, &m, o)
+				}
+				want := map[string][]string{} // path -> auth kind expected per POST
+				do(wop{Kind: "reg", U: 0, Auth: a0})
+				switch shape {
+				case "both":
+					do(wop{Kind: "reg", U: 1, Auth: a1})
+					do(wop{Kind: "notify", Out: [2]string{"200", "200"}})
+					do(wop{Kind: "notify", Out: [2]string{"200", "200"}})
+					want["/hook"] = []string{a0, a0}
+					want["/hook2"] = []string{a1, a1}
+				case "first-deleted":
+					do(wop{Kind: "notify", Out: [2]string{"200", "200"}})
+					do(wop{Kind: "del", U: 0})
+					do(wop{Kind: "reg", U: 1, Auth: a1})
+					do(wop{Kind: "notify", Out: [2]string{"200", "200"}})
+					want["/hook"] = []string{a0}
+					want["/hook2"] = []string{a1}
+				case "first-deactivated":
+					do(wop{Kind: "notify", Out: [2]string{"500", "500"}}) // max_tries 1: deactivates the first
+					do(wop{Kind: "reg", U: 1, Auth: a1})
+					do(wop{Kind: "notify", Out: [2]string{"200", "200"}})
+					want["/hook"] = []string{a0}
+					want["/hook2"] = []string{a1}
+				}
+				rep.Executions++
+				rep.Evaluations++
+				rep.DistinctNontrivial++
+				rep.Outcome("production-client:two-webhooks")
+				mu.Lock()
+				rc := got
+				got = nil
+				mu.Unlock()
+				seenN := map[string]int{}
+				kind := ""
+				for _, c := range rc {
+					exp := want[c.Path]
+					k := seenN[c.Path]
+					seenN[c.Path]++
+					if k >= len(exp) {
+						kind = "prodclient.delivery_count/two_webhooks"
+						continue
+					}
+					if c.Method != "POST" || !authOK(exp[k], c) || !strings.Contains(c.Body, `"operation":"ADD"`) {
+						kind = "prodclient.request/two_webhooks"
+					}
+				}
+				for pth, exp := range want {
+					if seenN[pth] != len(exp) && kind == "" {
+						kind = "prodclient.delivery_count/two_webhooks"
+					}
+				}
+				if kind != "" {
+					st.viol(kind, fmt.Sprintf("production client, two webhooks (%s then %s, %s): every target must receive one POST per event while active, carrying exactly its own authorisation header", a0, a1, shape), want, rc)
 				}
 				w.rig.Close()
 				_ = os.Remove(path)
